@@ -1,12 +1,17 @@
 (** * ChainGetProofs: the point lookup of ChainGetDefs is linearizable across inserts, removes, splits and unlinks.
 
+    A remove does not change the version word of its border (ChainDefs), so the validating load cannot tell
+    whether the key was removed after it was read: the linearization point of a lookup is its READ, and the
+    version check establishes retroactively that the border read was the one covering the key at that instant.
+
     Invariant ([cur_ok]) while the lookup is in flight, with n = the node [g_cur] now, v = [g_v], k = [g_key]:
       - n exists and v <= version of n (versions only grow);
       - IF the split counter of n is still the one of v and n is not deleted THEN n is the live node covering k
         (a range shrinks only by a split of the node itself, a node dies only by its unlink; a range may GROW by
         absorbing an unlinked neighbour without any version change, which is harmless);
-      - in [GCheck found]: IF the version of n is still v THEN found = (k is among the keys of n) (same version =>
-        same keys).
+      - in [GCheck found]: IF the version of n is still v THEN [found] is in the ghost [g_seen] (it was the
+        presence of k at the read: n had version v then, so it covered k) and, if k is among the keys of n now,
+        found = true (same version => no insert: the keys of n are among those it had at the read).
     [gw_cover] is the key step (per writer event); [cover_present] turns "the live node covering k holds k" into
     "k is present in the layer"; the ghost [g_seen] has the presence now at its head. *)
 From Coq Require Import NArith List Bool Lia.
@@ -87,7 +92,7 @@ Lemma gw_find s w s' id n :
   WF (c_nodes s) (c_fresh s) -> is_writer w = true -> cstep true s w = Some s' ->
   find_node id (c_nodes s) = Some n ->
   exists n', find_node id (c_nodes s') = Some n' /\ vle (cn_ver n) (cn_ver n') /\
-             (cn_ver n' = cn_ver n -> cn_keys n' = cn_keys n).
+             (cn_ver n' = cn_ver n -> forall k, In k (cn_keys n') -> In k (cn_keys n)).
 Proof.
   intros W Hw Hs Hf. rewrite is_writer_writer in Hw.
   destruct (writer_shape _ _ _ _ W Hw Hs) as (_&g&gain&lost&Wm&_&_&_&_&_&Hsh).
@@ -205,7 +210,7 @@ Proof.
     + (* the right neighbour takes over the range *)
       rewrite unlink_right_map in * by exact Hnd.
       set (L := upd (cn_id NX) (lo_f (cn_lo U))) in *. set (g := unl_g id (cn_next U) L) in *.
-      destruct (L_right_facts _ _ _ _ _ W HfU LU Hfl) as (A1&A2&A3). fold L in A1, A2, A3.
+      destruct (L_right_facts _ _ _ _ _ W HfU LU Hfl) as (A1&A2&A3&_). fold L in A1, A2, A3.
       assert (gid : forall x, cn_id (g x) = cn_id x).
       { intros x. unfold g, unl_g. rewrite upd_id by reflexivity. rewrite redir_id. apply A1. }
       pose proof (find_map_eq _ _ _ _ gid Hnd Hinn Hf) as ->.
@@ -249,15 +254,16 @@ Proof.
 Qed.
 
 (** ** 4. the invariant of the lookup *)
-Definition cur_ok (ns : list cnode) (g : getter) : Prop :=
+Definition cur_ok (ns : list cnode) (g : getter) (seen : list bool) : Prop :=
   cv_del (g_v g) = false /\
   exists n, find_node (g_cur g) ns = Some n /\ vle (g_v g) (cn_ver n) /\
     (cv_split (cn_ver n) = cv_split (g_v g) -> cv_del (cn_ver n) = false -> cover (g_key g) ns = Some n) /\
-    (forall found, g_pc g = GCheck found -> cn_ver n = g_v g -> found = mem (g_key g) (cn_keys n)).
+    (forall found, g_pc g = GCheck found -> cn_ver n = g_v g ->
+       In found seen /\ (mem (g_key g) (cn_keys n) = true -> found = true)).
 
 Record GInv (s : gstate) : Prop := {
   gi_wf : WF (c_nodes (g_c s)) (c_fresh (g_c s));
-  gi_cur : searching (g_get s) = true -> cur_ok (c_nodes (g_c s)) (g_get s);
+  gi_cur : searching (g_get s) = true -> cur_ok (c_nodes (g_c s)) (g_get s) (g_seen s);
   gi_head : searching (g_get s) = true -> hd_error (g_seen s) = Some (present (g_key (g_get s)) (g_c s));
   gi_done : forall b, g_pc (g_get s) = GDone b -> In b (g_seen s) }.
 
@@ -278,9 +284,9 @@ Proof.
   unfold start_get. destruct (cover k ns) as [n|]; [|discriminate]. intros H. injection H as <-. eauto.
 Qed.
 
-Lemma cur_ok_start ns f k r n :
+Lemma cur_ok_start ns f k r n seen :
   WF ns f -> cover k ns = Some n ->
-  cur_ok ns {| g_pc := GSearch; g_key := k; g_cur := cn_id n; g_v := cn_ver n; g_restarts := r |}.
+  cur_ok ns {| g_pc := GSearch; g_key := k; g_cur := cn_id n; g_v := cn_ver n; g_restarts := r |} seen.
 Proof.
   intros W Hc. split; cbn.
   - destruct (cover_spec _ _ _ Hc) as (_&_&_&Ln&_). unfold live in Ln. apply negb_true_iff in Ln. exact Ln.
@@ -291,11 +297,12 @@ Lemma hd_error_in {A} (l : list A) x : hd_error l = Some x -> In x l.
 Proof. destruct l; [discriminate|]. cbn. intros H. injection H as ->. left. reflexivity. Qed.
 
 (** a writer step *)
-Lemma cur_ok_writer c w c' g :
+Lemma cur_ok_writer c w c' g seen seen' :
   WF (c_nodes c) (c_fresh c) -> is_writer w = true -> cstep true c w = Some c' ->
-  cur_ok (c_nodes c) g -> cur_ok (c_nodes c') g.
+  (forall b, In b seen -> In b seen') ->
+  cur_ok (c_nodes c) g seen -> cur_ok (c_nodes c') g seen'.
 Proof.
-  intros W Hw Hs (Hvd&n&Hf&Hv&Hcov&Hfound). split; [exact Hvd|].
+  intros W Hw Hs Hsub (Hvd&n&Hf&Hv&Hcov&Hfound). split; [exact Hvd|].
   destruct (gw_find _ _ _ _ _ W Hw Hs Hf) as (n'&Hf'&Hvle&Hsame).
   exists n'. split; [exact Hf'|]. split; [eapply vle_trans; eauto|]. split.
   - intros Hsp Hdel.
@@ -308,19 +315,20 @@ Proof.
   - intros found Hpc Hv'.
     assert (E : cn_ver n = g_v g).
     { apply vle_antisym; [rewrite <- Hv'; exact Hvle|exact Hv]. }
-    rewrite (Hfound found Hpc E). rewrite Hsame by congruence. reflexivity.
+    destruct (Hfound found Hpc E) as [Hin Himp]. split; [apply Hsub, Hin|].
+    intros Hm. apply Himp. apply mem_true. apply Hsame; [congruence|]. apply mem_true, Hm.
 Qed.
 
-(** the answer validated by an unchanged version is the presence of the key at that instant *)
-Lemma validate_now s n found :
-  GInv s -> g_pc (g_get s) = GCheck found ->
+(** the linearization point is the read: if the border read still has the version the lookup validates against,
+    it is the live border covering the key, and what is read is the presence of the key at that instant *)
+Lemma read_now s n :
+  GInv s -> searching (g_get s) = true ->
   find_node (g_cur (g_get s)) (c_nodes (g_c s)) = Some n -> cn_ver n = g_v (g_get s) ->
-  found = present (g_key (g_get s)) (g_c s).
+  mem (g_key (g_get s)) (cn_keys n) = present (g_key (g_get s)) (g_c s).
 Proof.
-  intros [W Hcur _ _] Hpc Hf Hv.
-  assert (Hs : searching (g_get s) = true) by (unfold searching; rewrite Hpc; reflexivity).
-  destruct (Hcur Hs) as (Hvd&n0&Hf0&Hvle&Hcov&Hfound). rewrite Hf in Hf0. injection Hf0 as <-.
-  rewrite (Hfound found Hpc Hv). unfold present.
+  intros [W Hcur _ _] Hs Hf Hv.
+  destruct (Hcur Hs) as (Hvd&n0&Hf0&Hvle&Hcov&_). rewrite Hf in Hf0. injection Hf0 as <-.
+  unfold present.
   assert (Hc : cover (g_key (g_get s)) (c_nodes (g_c s)) = Some n).
   { apply Hcov; rewrite Hv; [reflexivity|exact Hvd]. }
   symmetry. eapply cover_present; eauto.
@@ -334,7 +342,8 @@ Proof.
     destruct (cstep true (g_c s) w) as [c'|] eqn:Hs; [|discriminate]. injection H as <-.
     constructor; cbn [g_c g_get g_seen].
     + eapply WF_step; eauto.
-    + intros Hse. eapply cur_ok_writer; eauto.
+    + intros Hse. rewrite Hse.
+      apply (cur_ok_writer (g_c s) w c' (g_get s) (g_seen s)); auto. intros b Hb. right. exact Hb.
     + intros Hse. rewrite Hse. reflexivity.
     + intros b Hb. destruct (searching (g_get s)) eqn:Hse; [|auto].
       unfold searching in Hse. rewrite Hb in Hse. discriminate.
@@ -355,7 +364,8 @@ Proof.
     + exact W.
     + intros _. destruct (Hcur Hse) as (Hvd&n0&Hf0&Hvle&Hcov&_). rewrite Hf in Hf0. injection Hf0 as <-.
       split; [exact Hvd|]. exists n. cbn. split; [exact Hf|]. split; [exact Hvle|]. split; [exact Hcov|].
-      intros found Hfd _. injection Hfd as <-. reflexivity.
+      intros found Hfd Hv. injection Hfd as <-. split; [|auto].
+      rewrite (read_now s n I Hse Hf Hv). apply hd_error_in, Hhead, Hse.
     + intros _. apply Hhead, Hse.
     + discriminate.
   - (* validate *)
@@ -367,7 +377,8 @@ Proof.
       apply cver_eqb_eq in Hveq. injection H as <-.
       constructor; cbn [g_c g_get g_seen g_pc g_key]; try discriminate; [exact W|].
       intros b Hb. injection Hb as <-.
-      rewrite (validate_now s n found I Hpc Hf Hveq). apply hd_error_in, Hhead, Hse.
+      destruct (Hcur Hse) as (_&n0&Hf0&_&_&Hfound). rewrite Hf in Hf0. injection Hf0 as <-.
+      apply (Hfound found Hpc Hveq).
     + destruct (negb (cv_split (cn_ver n) =? cv_split (g_v (g_get s))) || cv_del (cn_ver n)) eqn:Hre.
       * (* split or deleted: start again *)
         destruct (start_get (c_nodes (g_c s)) (g_key (g_get s)) (g_restarts (g_get s) + 1)) as [g'|] eqn:Hst;
@@ -416,12 +427,15 @@ Theorem chain_get_seen_head : forall kss evs s,
   hd_error (g_seen s) = Some (present (g_key (g_get s)) (g_c s)).
 Proof. intros kss evs s Hk H Hs. exact (gi_head _ (reach_G _ _ _ Hk H) Hs). Qed.
 
-(* T2': the linearization point is the validating load: the response of a GValidate step is the presence of the key
-   in the layer at that very instant, which is the head of the ghost *)
+(* T2': the linearization point is the READ, not the validating load.  A remove does not change the version word, so
+   the response b of a successful GValidate step is the presence of the key when it was read (it is in the ghost),
+   which the version check establishes retroactively; at the response itself only one direction is left: a key
+   present now was found (an insert would have changed the version), i.e. b = false is still the presence now,
+   b = true need not be ([chain_get_true_after_remove]) *)
 Theorem chain_get_response_now : forall kss evs s s' b,
   kss_ok kss = true -> grun (ginit kss) evs = Some s -> gstep s GValidate = Some s' ->
   g_pc (g_get s') = GDone b ->
-  b = present (g_key (g_get s')) (g_c s') /\ hd_error (g_seen s') = Some b.
+  In b (g_seen s') /\ (present (g_key (g_get s')) (g_c s') = true -> b = true).
 Proof.
   intros kss evs s s' b Hk H Hst Hb. pose proof (reach_G _ _ _ Hk H) as I. unfold gstep in Hst.
   destruct (g_pc (g_get s)) as [| |found|] eqn:Hpc; try discriminate.
@@ -429,11 +443,29 @@ Proof.
   assert (Hse : searching (g_get s) = true) by (unfold searching; rewrite Hpc; reflexivity).
   destruct (cver_eqb (cn_ver n) (g_v (g_get s))) eqn:Hveq.
   - apply cver_eqb_eq in Hveq. injection Hst as <-. cbn in Hb |- *. injection Hb as <-.
-    rewrite (validate_now s n found I Hpc Hf Hveq). split; [reflexivity|]. apply (gi_head _ I Hse).
+    destruct (gi_cur _ I Hse) as (_&n0&Hf0&_&_&Hfound). rewrite Hf in Hf0. injection Hf0 as <-.
+    destruct (Hfound found Hpc Hveq) as [Hin Himp]. split; [exact Hin|].
+    intros Hp. apply Himp. rewrite (read_now s n I Hse Hf Hveq). exact Hp.
   - destruct (negb (cv_split (cn_ver n) =? cv_split (g_v (g_get s))) || cv_del (cn_ver n)).
     + destruct (start_get _ _ _) as [g'|] eqn:Hsg; [|discriminate]. injection Hst as <-.
       apply start_get_inv in Hsg as (n1&_&->). discriminate.
     + injection Hst as <-. discriminate.
+Qed.
+
+(* T2'': the read: when the border that is read has the version the lookup validates against (by monotonicity of
+   the versions this is the case whenever the validation succeeds later), what is read is the presence of the key in
+   the layer at that very instant, which is the head of the ghost *)
+Theorem chain_get_read_is_presence : forall kss evs s s' found n,
+  kss_ok kss = true -> grun (ginit kss) evs = Some s -> gstep s GRead = Some s' ->
+  g_pc (g_get s') = GCheck found ->
+  find_node (g_cur (g_get s)) (c_nodes (g_c s)) = Some n -> cn_ver n = g_v (g_get s) ->
+  found = present (g_key (g_get s')) (g_c s') /\ hd_error (g_seen s') = Some found.
+Proof.
+  intros kss evs s s' found n Hk H Hst Hb Hf Hv. pose proof (reach_G _ _ _ Hk H) as I. unfold gstep in Hst.
+  destruct (g_pc (g_get s)) eqn:Hpc; try discriminate. rewrite Hf in Hst. injection Hst as <-.
+  assert (Hse : searching (g_get s) = true) by (unfold searching; rewrite Hpc; reflexivity).
+  cbn in Hb |- *. injection Hb as <-. rewrite (read_now s n I Hse Hf Hv).
+  split; [reflexivity|apply (gi_head _ I Hse)].
 Qed.
 
 (* T3: the chain invariant is maintained (so the model never gets stuck on a lookup step for a structural reason):
@@ -512,7 +544,7 @@ Proof.
     destruct (find_node_In _ _ _ HfU) as [HinU HidU]. destruct H0 as (n&Hin&Ln&Hlo).
     destruct Hcase as [(->&NX&Hfl&->)|(->&->)]; cbn [c_nodes].
     + rewrite unlink_right_map by exact Hnd.
-      destruct (L_right_facts _ _ _ _ _ W HfU LU Hfl) as (A1&A2&A3).
+      destruct (L_right_facts _ _ _ _ _ W HfU LU Hfl) as (A1&A2&A3&_).
       set (L := upd (cn_id NX) (lo_f (cn_lo U))) in *.
       destruct (N.eq_dec (cn_id n) id) as [Ei|Ei].
       * (* the node with lower bound 0 is unlinked: its right neighbour takes the bound over *)
@@ -624,8 +656,8 @@ Proof.
   vm_compute in H. injection H as ->. vm_compute. split; [reflexivity|]. split; [reflexivity|]. right. left. reflexivity.
 Qed.
 
-(* a lookup that answers "absent" although the key is present at the response only later: the answer false is the
-   presence at the validating load (linearization point), and true is in the ghost as well *)
+(* a lookup that answers "absent", the key being inserted only after the response: the answer false is the presence at
+   the read (the linearization point) and, for the answer false, still at the validating load *)
 Example chain_get_nonvacuous3 : exists evs s, grun (ginit [[10]; [20]]) evs = Some s /\
   g_pc (g_get s) = GDone false /\ present 15 (g_c s) = true /\ In false (g_seen s).
 Proof.
@@ -636,9 +668,23 @@ Proof.
   vm_compute in H. injection H as ->. vm_compute. split; [reflexivity|]. split; [reflexivity|]. left. reflexivity.
 Qed.
 
+(* the linearization point is the read: the key is removed between the read and the validating load; the version of
+   the border is unchanged, the lookup answers "present" although the key is absent at the response *)
+Example chain_get_true_after_remove : exists evs s, grun (ginit [[10]; [20]]) evs = Some s /\
+  g_pc (g_get s) = GDone true /\ present 10 (g_c s) = false /\ g_seen s = [false; true] /\
+  g_restarts (g_get s) = 0.
+Proof.
+  set (tr := [GBegin 10; GRead; GW (ERem 10); GValidate]).
+  exists tr. destruct (grun (ginit [[10]; [20]]) tr) as [s|] eqn:E; [|vm_compute in E; discriminate].
+  exists s. split; [reflexivity|].
+  assert (Some s = grun (ginit [[10]; [20]]) tr) as H by (symmetry; exact E).
+  vm_compute in H. injection H as ->. vm_compute. repeat split; reflexivity.
+Qed.
+
 Print Assumptions chain_get_linearizable.
 Print Assumptions chain_get_seen_head.
 Print Assumptions chain_get_response_now.
+Print Assumptions chain_get_read_is_presence.
 Print Assumptions chain_get_cur_exists.
 Print Assumptions chain_get_wf.
 Print Assumptions chain_get_not_stuck.
@@ -646,3 +692,4 @@ Print Assumptions chain_get_begin_enabled.
 Print Assumptions chain_get_nonvacuous.
 Print Assumptions chain_get_nonvacuous2.
 Print Assumptions chain_get_nonvacuous3.
+Print Assumptions chain_get_true_after_remove.
